@@ -5,6 +5,7 @@ import (
 	"encoding/json"
 	"fmt"
 	"os"
+	"sync/atomic"
 	"testing"
 	"time"
 )
@@ -32,6 +33,7 @@ type Job struct {
 type WorkerResult struct {
 	Stats     *Stats        `json:"stats"`
 	Violation *Replay       `json:"violation,omitempty"`
+	Collected []*Replay     `json:"collected,omitempty"`
 	NextRun   int           `json:"next_run"` // first run index not executed (for respawn after leaks)
 	Done      bool          `json:"done"`
 	Samples   []interface{} `json:"samples"`
@@ -80,9 +82,25 @@ func TestWorker(t *testing.T) {
 		return
 	}
 	keys := map[uint64]struct{}{}
+	collected := map[string]bool{}
 	crashProne := false
 	if cp, ok := prop.(interface{ CrashProne() bool }); ok {
 		crashProne = cp.CrashProne()
+	}
+	var runStarted atomic.Int64
+	if crashProne {
+		// A decoder spinning without a scheduling point cannot be preempted
+		// by the simulator; only here does real time take part in a verdict,
+		// with a limit far above any legitimate run (inputs are a few KiB).
+		go func() {
+			for {
+				time.Sleep(time.Second)
+				if s := runStarted.Load(); s != 0 && time.Now().UnixNano()-s > int64(hangLimit) {
+					fmt.Fprintf(os.Stderr, "fatal error: hang: run did not finish within %v\n", hangLimit)
+					os.Exit(3)
+				}
+			}
+		}()
 	}
 	if job.MaxRuns == 0 {
 		job.MaxRuns = prop.Runs(job.Tier)
@@ -116,10 +134,16 @@ func TestWorker(t *testing.T) {
 			// a fatal runtime error (stack overflow, out of memory) cannot be
 			// recovered: leave a note saying which run was executing
 			os.WriteFile(job.Out+".inflight", []byte(fmt.Sprint(run)), 0o644)
+			// ... and checkpoint the statistics so that the runs before a
+			// crash are still accounted for
+			res.NextRun = run
+			writeJSON(job.Out+".ckpt", res)
 		}
 		t0 := time.Now()
+		runStarted.Store(t0.UnixNano())
 		vd := prop.Exec(x, c)
-		if d := time.Since(t0); d > 2*time.Second && os.Getenv("HTSV_SLOW") != "" {
+		runStarted.Store(0)
+		if d := time.Since(t0); d > 300*time.Millisecond && os.Getenv("HTSV_SLOW") != "" {
 			fmt.Fprintf(os.Stderr, "slow run %d: %v steps=%d %s\n", run, d, x.Steps, caseJSON(c))
 		}
 		res.Stats.Runs++
@@ -129,6 +153,14 @@ func TestWorker(t *testing.T) {
 		if vd.V != nil {
 			if k := matchKnown(job.Known, job.Property, vd.V); k != nil {
 				res.Stats.KnownHits[k.ID]++
+				continue
+			}
+			if os.Getenv("HTSV_COLLECT") != "" {
+				// triage mode: keep going, one replay per violation class
+				if !collected[vd.V.Class] {
+					collected[vd.V.Class] = true
+					res.Collected = append(res.Collected, shrinkAndPackage(t, prop, &job, run, c, tape, x, vd))
+				}
 				continue
 			}
 			rp := shrinkAndPackage(t, prop, &job, run, c, tape, x, vd)
@@ -180,6 +212,9 @@ func TestWorker(t *testing.T) {
 // maxKeysPerWorker bounds the memory of the distinctness measure; beyond it
 // distinct_nontrivial is a lower bound (flagged in evidence).
 const maxKeysPerWorker = 400000
+
+// hangLimit is the real-time limit of one run of a crash-prone property.
+const hangLimit = 120 * time.Second
 
 func matchKnown(known []KnownFinding, prop string, v *Violation) *KnownFinding {
 	for i := range known {
